@@ -230,7 +230,7 @@ OBLIGATIONS = {
     'SignatureHeaderBuilder::set_sha256_digest': ['C10', 'C08'],
     'SignatureHeaderBuilder::add_openpgp_signature': ['C10'],
     'Package::clear_signatures': ['C10', 'C08'],
-    'Package::sign_with_timestamp': ['C10', 'C08'],
+    'Package::sign_with_timestamp': ['C10', 'C08', 'C11'],   # C11: the signature is the signer's output for exactly the timestamp given
     'lemma_history': ['C10'],
     'c10_sign_is_step': ['C10'],
     'c10_clear_is_step': ['C10'],
